@@ -307,6 +307,17 @@ def same(x, y):
     return strip(x) == strip(y)
 
 
+def func_tail(f):
+    """last name of a callee sym: functools.partial → 'partial'"""
+    if f[0] == 'attr':
+        return f[2]
+    if f[0] == 'name':
+        return f[1]
+    if f[0] == 'method':
+        return f[2]
+    return None
+
+
 def is_const(x, v=None):
     if not (isinstance(x, tuple) and x and x[0] == 'const'):
         return False
@@ -1037,18 +1048,32 @@ class Exec:
                 # for v in iter(f, sentinel)  ==  while True: v = f(); if v == sentinel: break; body
                 fn, sentinel = it2
 
-                def runner(body, info, fn=fn, sentinel=sentinel):
+                lam = s.iter.args[0] if isinstance(s.iter, ast.Call) and len(s.iter.args) == 2 and isinstance(s.iter.args[0], ast.Lambda) \
+                    and not (s.iter.args[0].args.args or s.iter.args[0].args.vararg or s.iter.args[0].args.kwonlyargs) else None
+
+                def runner(body, info, fn=fn, sentinel=sentinel, lam=lam):
                     res = []
-                    uid = new_uid()
-                    v = ('call', uid, fn, (), ())
-                    body.emit('call', v, node=s)
-                    self.assign(s.target, v, body, s)
-                    t, f = self.branch(body, ('cmp', '==', v, sentinel), s)
-                    if t is not None:
-                        t.status = 'break'
-                        res.append(t)
-                    if f is not None:
-                        res += self.block(s.body, [f])
+                    if lam is not None:
+                        vals = self.ev(lam.body, body)
+                    elif fn[0] == 'call' and func_tail(fn[2]) == 'partial' and fn[3] and not any(a[0] == 'star' for a in fn[3]):
+                        v = ('call', new_uid(), fn[3][0], tuple(fn[3][1:]), tuple(fn[4]))
+                        body.emit('call', v, node=s)
+                        vals = [(body, v)]
+                    else:
+                        v = ('call', new_uid(), fn, (), ())
+                        body.emit('call', v, node=s)
+                        vals = [(body, v)]
+                    for b2, v in vals:
+                        if b2.status != 'run':
+                            res.append(b2)
+                            continue
+                        self.assign(s.target, v, b2, s)
+                        t, f = self.branch(b2, ('cmp', '==', v, sentinel), s)
+                        if t is not None:
+                            t.status = 'break'
+                            res.append(t)
+                        if f is not None:
+                            res += self.block(s.body, [f])
                     return res
                 sts, _ = self.loop(x, 'while', None, s, runner, assigned_names([s]) )
             else:
@@ -1351,6 +1376,14 @@ class Exec:
                     continue
             sym = ('call', new_uid(), f, args, kws)
             x.emit('call', sym, node=n)
+            # lock.acquire() … lock.release() delimit the same region as `with lock:`
+            if f[0] == 'attr' and f[2] == 'acquire' and not args:
+                x.ctx = x.ctx + (('with', sym[1], f[1]),)
+            elif f[0] == 'attr' and f[2] == 'release' and not args:
+                for fr in reversed(x.ctx):
+                    if fr[0] == 'with' and same(fr[2], f[1]):
+                        x.ctx = tuple(g for g in x.ctx if g is not fr)
+                        break
             out.append((x, sym))
         return out
 
